@@ -170,6 +170,18 @@ def _result_fields(op: str, res, a: dict) -> dict:
     if op == "get_shutter_state":
         return {"position": res.position, "direction": list(unhexlify(res.direction.value))}
     if op == "get_schedules":
+        out = _sched_fields(res, a)
+        for sch in res.schedules:          # what a caller does with its own result must not leak into later listings
+            try:
+                sch.days.clear()
+            except Exception:  # noqa: BLE001
+                pass
+        return out
+    return {}
+
+
+def _sched_fields(res, a: dict) -> dict:
+    if True:
         return {"zone": a["zone"], "scheds": [
             {"id": text(s.schedule_id), "recurring": bool(s.recurring), "days": sorted(d.weekday for d in s.days),
              "start": text(s.start_time), "end": text(s.end_time), "duration": text(s.duration)}
